@@ -152,7 +152,9 @@ MUTEX_RULES = [
     Guard(r"auto (\w+) = (\w+);", r"sp_t \1 = sp_copy(\2);", r"sp_release(&\1);", None),
     Sub(r"\bstate = ([^;]+);", r"sp_assign(&state, \1);", None),
     Call(r"std::allocate_shared<[^()]*>", "sp_allocate_shared({args})", None),
-    Call(r"\b(\w+)->set_value", "ss_set_value({h1}, val_copy({0}))", None),
+    # a raw pointer taken from the owning shared_ptr (`value.get()`): no reference is added for the group that stores it
+    Sub(r"\b(\w+)->set_value\(\s*(\w+)\.get\(\)\s*\)", r"ss_set_value(\1, val_raw(\2))", None),
+    Call(r"\b(\w+)->set_value(?!\(\w+, val_raw)", "ss_set_value({h1}, val_copy({0}))", None),
     Call(r"\b(\w+)->set_next_state", "ss_set_next_state({h1}, sp_copy({0}))", None),
     Call(r"\b(\w+)->done", "ss_done({h1})", None),
     Sub(r"async_rw_mutex_access_type::(\w+)", r"access_\1", "+"),
